@@ -42,7 +42,15 @@ def payloadsOf (j : Json) : Option Payloads := do
     let k ← asNat? (← a[1]?)
     let b ← asNat? (← a[2]?)
     pure (p.toList, k, b))
-  pure ⟨bench, run⟩
+  -- profile data file: the JSON columns that `json.loads` accepts (null: the loader does not check)
+  let prof : Option (Text → Bool) :=
+    match j.getObjVal? "profile_json" with
+    | .ok (Json.arr a) =>
+        let l := a.toList.filterMap (fun e => match e.getStr? with | .ok s => some s.toList | _ => none)
+        some (fun js => l.contains js)
+    | .ok (Json.str "any") => some (fun _ => true)
+    | _ => none
+  pure { Payloads.ofLists bench run with profile := prof }
 
 def cfgOf (j : Json) : Option (List RunCfg) := do
   let cs ← getArr? j "cfg"
@@ -93,6 +101,45 @@ def handle (op : String) (j : Json) : Option Json :=
                (← asStr? (← a[5]?)).toList⟩ : WDP))
       let recs := sessionRecs glued empty ⟨benches, runs⟩ ds
       pure (Json.mkObj [("recs", Json.arr (recs.map (fun r => Json.str (recName r))).toArray)])
+  | "c09.render" => do
+      -- the text a session appends (text-level writer `mkSess` / `sessText`)
+      let benches ← (← getArr? j "benches").toList.mapM asNat?
+      let runs ← (← getArr? j "runs").toList.mapM asNat?
+      let empty ← getBool? j "empty"
+      let cmd ← getStr? j "cmd"
+      let hdr ← getStr? j "hdr"
+      let comments ← (← getArr? j "comments").toList.mapM asStr?
+      let ds ← (← getArr? j "dps").toList.mapM (fun e => do
+        let a ← asArr? e
+        let crits ← (← asArr? (← a[4]?)).toList.mapM (fun c => do
+          let ca ← asArr? c
+          pure ((← asStr? (← ca[0]?)).toList, (← asStr? (← ca[1]?)).toList))
+        pure (⟨← asNat? (← a[0]?), ← asNat? (← a[1]?), ← asNat? (← a[2]?), ← asNat? (← a[3]?), crits,
+               (← asStr? (← a[5]?)).toList⟩ : WDP))
+      let cols ← (← getArr? j "cols").toList.mapM (fun e => do
+        let a ← asArr? e
+        let cs ← (← asArr? (← a[1]?)).toList.mapM asStr?
+        pure ((← asNat? (← a[0]?)), cs.map String.toList))
+      let units ← (← getArr? j "units").toList.mapM (fun e => do
+        let a ← asArr? e
+        pure ((← asStr? (← a[0]?)).toList, (← asStr? (← a[1]?)).toList))
+      let bj ← (← getArr? j "bench_json").toList.mapM (fun e => do
+        let a ← asArr? e
+        pure ((← asNat? (← a[0]?)), (← asStr? (← a[1]?)).toList))
+      let rj ← (← getArr? j "run_json").toList.mapM (fun e => do
+        let a ← asArr? e
+        pure (((← asNat? (← a[0]?)), (← asNat? (← a[1]?))), (← asStr? (← a[2]?)).toList))
+      let R : Rend := {
+        cols := fun k => (cols.lookup k).getD []
+        unit := fun c => (units.lookup c).getD []
+        benchJson := fun k => (bj.lookup k).getD "?".toList
+        runJson := fun k b => (rj.lookup (k, b)).getD "?".toList
+        comment := fun i => (comments[i]?.getD "").toList
+        hdr := hdr.toList
+        profile := (getBool? j "profile").getD false }
+      let t := sessText ⟨benches, runs⟩ (mkSess R cmd.toList empty ds)
+      pure (Json.mkObj [("text", Json.str (String.ofList t)), ("rend_ok", Json.bool (rendOk R)),
+        ("dps_ok", Json.bool (ds.all (dpOk R))), ("cmd_ok", Json.bool (cmdOk cmd.toList && noCR cmd.toList))])
   | "c09.classify" => do
       -- one line → record name
       let line ← getStr? j "line"
